@@ -91,4 +91,13 @@ PROPS = {
                 "non-trivial = skewed placement, shared downstream channel, or late partition id; distinct = distinct catalog+scripts",
         "assumptions": ["go-deadlock detector disabled in the harness (toolchain artefact)", "cases in which no handler can own the target channel end in a ReplicateError event and are accepted"],
     },
+    "C03": {
+        "pkg": "hreader", "test": "TestC03", "level": "exploration",
+        "quick": T(16, 60, timeout=900), "thorough": T(16, 2000, timeout=7000),
+        "rule": "2..4 source streams (clock skew 0 ms .. 10 min, nil/pchannel positions, 1..5 packs of 0..3 insert/delete messages, BeginTs=0 first packs, tick-only packs, equal-timestamp groups) multiplexed onto one downstream channel; "
+                "75% of the cases run under a drawn schedule: the verif yield hook parks a stream goroutine between 'pack computed' and 'pack enqueued' and the schedule decides which parked pack is released next while other streams are fed; "
+                "oracle on the sequence read from GetMsgChan: every pack ends with a tick, closing ticks never decrease, every message is later than all earlier closing ticks and not later than its own, begin/end/message/row/position times of data packs agree, "
+                "source order (<,=,>) of messages of one shard is mirrored. non-trivial = a pack was fed while another stream's pack sat in the computed-not-enqueued window (or releases were reordered) and >= 2 data packs; distinct = distinct scripts+schedule",
+        "assumptions": ["resume from a persisted checkpoint is covered by the server-level checks, not here", "go-deadlock detector disabled in the harness (toolchain artefact)"],
+    },
 }
